@@ -158,6 +158,27 @@ func genC01(t *rapid.T) c01Case {
 		}
 		cs.Blocks = append(cs.Blocks, bp)
 	}
+	// ties: one key delegates the same amount to every validator (which all start with the same stake), then asks the
+	// staking precompile to pick one of its validators itself (transfer to self): whatever breaks the tie must be the same
+	// on every node and every re-execution
+	if rapid.IntRange(0, 3).Draw(t, "ties") == 0 {
+		if cs.World.NumVals < 2 {
+			cs.World.NumVals = 3
+		}
+		k := rapid.IntRange(0, nEOA-1).Draw(t, "tiekey")
+		amt := bigU(rapid.Uint64Range(1, 2000000).Draw(t, "tieamt"))
+		var del []TxPlan
+		for v := 0; v < cs.World.NumVals; v++ {
+			del = append(del, TxPlan{Kind: "eth", From: k, Type: 0, Gas: 600000, CapOver: gwei, Value: "0", To: stakingCpcAddr().Hex(), Data: packStaking("delegate", chain.ValOperKey(v).Addr, amt)})
+		}
+		cs.Blocks = append(cs.Blocks, BlockPlan{Dt: 5, Txs: del})
+		var pick []TxPlan
+		for n := rapid.IntRange(1, 3).Draw(t, "npicks"); n > 0; n-- {
+			pick = append(pick, TxPlan{Kind: "eth", From: k, Type: 0, Gas: 900000, CapOver: gwei, Value: "0", To: stakingCpcAddr().Hex(),
+				Data: packStaking("transfer", chain.K(k).Addr, bigU(rapid.Uint64Range(1, 1000).Draw(t, "pickamt")))})
+		}
+		cs.Blocks = append(cs.Blocks, BlockPlan{Dt: 7, Txs: pick})
+	}
 	return cs
 }
 
